@@ -308,7 +308,7 @@ prop("C18", "exploration",
      ["forks are longer than the branch they replace (the wallet ignores a node whose height is below its confirmed height)",
       "in every other scenario the recipient wallet has a second account whose (coinbase) log entries carry the same per-account ids as the payment",
       "orphaned coinbase rewards are judged for the active account (the one a refresh looks at)"],
-     required_hist=["judged-reverted:scan", "judged-reverted:full-refresh", "judged-confirmed:refresh", "recipient-has-a-second-account-with-colliding-log-ids", "payment-carries-a-time-to-live-that-has-passed-when-it-is-reorganised-away", "recipient-reserved-the-received-output-for-an-own-send"])
+     required_hist=["judged-reverted:scan", "judged-reverted:full-refresh", "judged-confirmed:refresh", "recipient-has-a-second-account-with-colliding-log-ids", "payment-carries-a-time-to-live-that-has-passed-when-it-is-reorganised-away", "recipient-reserved-the-received-output-for-an-own-send", "recipient-restored-from-seed-after-the-payment-confirmed"])
 
 prop("C20", "exploration",
      "schedules at wallet-lock granularity, enumerated: hook H2 announces every wallet_lock! acquisition of update_wallet_state / scan / scan with "
